@@ -215,6 +215,8 @@ def mutations(p, rnd, tier):
     for n in range(1, len(p)):
         out.append(p[:n])                       # truncated (stays in the buffer unless the length field says otherwise)
     out.append(p + b"\x00"); out.append(p + b"\xff\xff")
+    if p[1] < 0x80:
+        out.append(bytes([p[0], p[1] | 0x80, 0x00]) + p[2:])      # the same packet with its remaining length on two bytes
     # truncation with a consistent remaining length
     for n in range(2, len(p)):
         body = p[2:n]
@@ -285,6 +287,9 @@ def fam_inject(out, tier, rnd):
     always = []
     for first, mid in ((0x36, 21), (0x37, 22), (0x3E, 23), (0x3F, 1)):
         always += [W.frame(first, W.mstr("q3/t") + W.i16(mid) + b"q3"), W.ack("PUBREL", mid)]
+    # ... and the refusing / accepting CONNACK and the acknowledgements with their remaining length on two bytes
+    for p in (W.connack(5, 0), W.connack(0, 0), W.ack("PUBACK", 1), W.suback(1, [1, 2])):
+        always.append(bytes([p[0], p[1] | 0x80, 0x00]) + p[2:])
     for prof, sit in combos:
         todo = [inj[(k * 7919 + j) % len(inj)] for j in range(per)] + always
         k += 1
@@ -303,6 +308,40 @@ def fam_inject(out, tier, rnd):
             drain(w, 4)
             out.done(w)
 
+
+
+# ------------------------------------------------------------------------------------------------ every packet in every state
+def fam_pktstate(out, tier, rnd):
+    """every valid broker packet (identifiers matching the requests that are pending) delivered in every prepared situation
+    of every profile, one per history, followed by a probe of the state reached                         (C14, C16)"""
+    pkts = corpus() + [W.suback(1, [0x80]), W.ack("PUBREC", 2), W.ack("PUBCOMP", 2), W.publish("x", b"y", 2, 9), W.ack("PUBREL", 1)]
+    for prof in ("pub", "sub", "both"):
+        for sit in SITUATIONS + ["connecting-2"]:
+            for clean in (True, False):
+                if tier == "quick" and not clean and sit not in ("connecting", "connecting-2", "pending-rel", "held-inbound"):
+                    continue
+                for pk in pkts:
+                    w = out.world(prof)
+                    if sit == "connecting-2":          # two publishes made while connecting, window 1: one on the wire, one held back
+                        w.build(A); w.set(A, "onDisconnection", 1); w.set(A, "onPublish", 1)
+                        w.connect(A, keepalive=0, cleanStart=clean)
+                        if prof != "sub":
+                            w.publish(A, "t", "early1", 1); w.publish(A, "t", "early2", 1)
+                    else:
+                        prepare(w, prof, sit, clean=clean)
+                    w.recv(A, pk)
+                    st = W.state_name(w.p[A])
+                    if st == "ConnectingState" and w.t[A].phase == "open":
+                        w.recv(A, W.connack(rnd.choice([0, 0, 5]), 0))
+                    if W.state_name(w.p[A]) == "ConnectedState" and w.t[A].phase == "open":
+                        if prof != "sub":
+                            w.publish(A, "t", "probe", 1)
+                        else:
+                            w.subscribe(A, "probe/s", 1)
+                    if w.t[A].phase != "lost":
+                        w.lost(A, "done")
+                    drain(w, 3)
+                    out.done(w)
 
 # ------------------------------------------------------------------------------------------------ args
 LONG = "a" * 65535
@@ -340,6 +379,17 @@ def arg_vectors():
             kw[fld] = s
             V.append(("connect", kw))
     V.append(("connect", dict(base, clientId=None)))
+    # empty strings are strings: an empty password still needs a user name, an empty will topic still needs a message ...
+    V.append(("connect", dict(base, password="")))
+    V.append(("connect", dict(base, username="", password="")))
+    V.append(("connect", dict(base, username="u", password="")))
+    V.append(("connect", dict(base, username="")))
+    V.append(("connect", dict(base, willTopic="", willMessage="")))
+    V.append(("connect", dict(base, willTopic="w", willMessage="")))
+    V.append(("connect", dict(base, willTopic="")))
+    V.append(("connect", dict(base, willMessage="")))
+    V.append(("connect", dict(base, clientId="")))
+    V.append(("connect", dict(base, clientId="", cleanStart=False)))
     for q in (-1, 0, 1, 2, 3, None):
         V.append(("publish", ("t", "m", q)))
     for pl in ("", "text", bytearray(b"\x00\x01"), 5, None, 1.5, b"bytes", ["l"]):
@@ -740,9 +790,13 @@ def fam_resume(out, tier, rnd):
                             for clean3 in (False, True):
                                 if tier == "quick" and rnd.random() < (0.8 if clean3 else 0.5):
                                     continue
+                                # protocol versions of the three connections (a 3.1 session may be resumed under 3.1.1 and back)
+                                v1, v2, v3 = rnd.choice([(4, 4, 4), (3, 3, 3), (3, 4, 3), (4, 3, 3), (3, 3, 4)])
                                 w = out.world(prof)
                                 w.build(A); w.set(A, "onDisconnection", 1); w.set(A, "window", win)
-                                w.connect(A, keepalive=0, cleanStart=False); w.recv(A, W.connack(0, 0))
+                                w.connect(A, keepalive=0, cleanStart=False, version=v1); w.recv(A, W.connack(0, 0))
+                                if prof == "both":
+                                    w.subscribe(A, [("s/a", 1), ("s/b", 2)]); w.unsubscribe(A, ["s/c"])
                                 for j, q in enumerate(pat):
                                     w.publish(A, "t/%d" % j, "c1-%d" % j, q)
                                 if rec1:
@@ -752,7 +806,7 @@ def fam_resume(out, tier, rnd):
                                 w.lost(A, rnd.choice(["done", "lost"])); drain(w, 2)
                                 # second connection
                                 w.build(A); w.set(A, "onDisconnection", 1); w.set(A, "window", max(win, 2) if k2 else win)
-                                w.connect(A, keepalive=0, cleanStart=False)
+                                w.connect(A, keepalive=0, cleanStart=False, version=v2)
                                 for j in range(k2):
                                     w.publish(A, "u/%d" % j, "c2-%d" % j, 1 + j % 2)
                                 if stage2 != "lost-before-connack":
@@ -767,7 +821,7 @@ def fam_resume(out, tier, rnd):
                                 # third connection: resumes or clears, then every acknowledgement in wire order
                                 w.build(A); w.set(A, "onDisconnection", 1); w.set(A, "window", 3)
                                 mark = len(w.lines)
-                                w.connect(A, keepalive=0, cleanStart=clean3)
+                                w.connect(A, keepalive=0, cleanStart=clean3, version=v3)
                                 w.publish(A, "v", "c3-early", 1)
                                 w.recv(A, W.connack(0, 0 if clean3 else 1))
                                 for _ in range(12):
@@ -818,6 +872,106 @@ def fam_deadconnect(out, tier, rnd):
                                 again()
                             drain(w, 6)
                             out.done(w)
+
+
+# ------------------------------------------------------------------------------------------------ two keepalives
+def fam_ka2(out, tier, rnd):
+    """two connections of one factory (two addresses), each with its own keepalive: the keepalive of one must go on,
+    answered or not, whatever happens to the other (loss, disconnect(), ping timeout, a protocol rebuilt)      (C15, C13)"""
+    B = "B"
+    for prof in ("pub", "sub", "both"):
+        for kaA, kaB in ((2, 3), (3, 3), (5, 2), (2, 0)):
+            for event in ("lostA", "disconnectA", "timeoutA", "rebuildA", "none"):
+                for answerB in (True, False):
+                    if tier == "quick" and prof != "both" and (event in ("none", "rebuildA") or not answerB):
+                        continue
+                    w = out.world(prof)
+                    w.fire_limit = 30
+                    def answer(answerA=True):           # answer the PINGREQs written by the last step
+                        for e in list(w.lines[-1]["fx"]):
+                            if e["k"] == "write" and e.get("bytes") and e["bytes"][0] == 0xC0:
+                                x = e["c"][0]
+                                if w.t[x].phase == "open" and ((x == A and answerA) or (x == B and answerB)):
+                                    w.recv(x, W.PINGRESP)
+                    for x, ka in ((A, kaA), (B, kaB)):
+                        w.build(x); w.set(x, "onDisconnection", 1)
+                        w.connect(x, keepalive=ka, cleanStart=True); w.recv(x, W.connack(0, 0)); answer()
+                    def pump(n, answerA=True):
+                        for _ in range(n):
+                            if not w.due() or not w.in_range(w.due()[0]):
+                                return
+                            w.fire(w.due()[0]); answer(answerA)
+                    pump(4)
+                    if event == "lostA":
+                        w.lost(A, "lost")
+                    elif event == "disconnectA":
+                        w.disconnect(A); w.lost(A, "done")
+                    elif event == "timeoutA":
+                        pump(8, answerA=False)
+                        if w.t[A].phase != "lost":
+                            w.lost(A, "lost")
+                    elif event == "rebuildA":
+                        w.lost(A, "lost"); w.build(A); w.set(A, "onDisconnection", 1)
+                        w.connect(A, keepalive=kaA, cleanStart=True); w.recv(A, W.connack(0, 0)); answer()
+                    pump(10)
+                    for x in (A, B):
+                        if w.t[x].phase != "lost":
+                            w.lost(x, "done")
+                    drain(w, 4)
+                    out.done(w)
+
+
+# ------------------------------------------------------------------------------------------------ everything pending at the end
+def fam_lossall(out, tier, rnd):
+    """requests of every kind pending at once (QoS 1 in flight, QoS 2 in its PUBLISH and in its PUBREL phase, QoS 0/1/2 held
+    back, SUBSCRIBE, UNSUBSCRIBE), optionally an inbound QoS 2 message half received, and the connection ending in each
+    possible way, in a clean and in a persistent session; a persistent connection of a new protocol then shows what was
+    carried over                                                                               (C11, C12, C13, C04)"""
+    for prof in ("pub", "sub", "both"):
+        for inbound2 in ((False, True) if prof != "pub" else (False,)):
+            for ending in ("done", "lost", "garbage", "katimeout", "disconnect", "connect-timeout"):
+                for clean in (True, False):
+                    for ver in ((3, 4) if tier == "thorough" else (4,)):
+                        w = out.world(prof)
+                        w.build(A); w.set(A, "onDisconnection", 1); w.set(A, "onPublish", 1); w.set(A, "window", 3)
+                        w.connect(A, keepalive=2 if ending == "katimeout" else 0, cleanStart=clean, version=ver)
+                        if ending == "connect-timeout":
+                            if prof != "sub":
+                                w.publish(A, "t", "early1", 1); w.publish(A, "t", "early2", 2)
+                            n = 0
+                            while w.t[A].phase == "open" and w.due() and w.in_range(w.due()[0]) and n < 8:
+                                w.fire(w.due()[0]); n += 1
+                        else:
+                            w.recv(A, W.connack(0, 0))
+                            if prof != "sub":
+                                w.publish(A, "t", "q1", 1)
+                                w.publish(A, "t", "q2rel", 2); mrel = next((e["mid"] for e in w.lines[-1]["fx"] if e["k"] == "ret"), 2)
+                                w.recv(A, W.ack("PUBREC", mrel))
+                                w.publish(A, "t", "q2pub", 2)
+                                w.publish(A, "t", "h1", 1); w.publish(A, "t", "h0", 0); w.publish(A, "t", "h2", 2); w.publish(A, "t", "h1b", 1)
+                            if prof != "pub":
+                                w.subscribe(A, [("s/1", 1)]); w.unsubscribe(A, ["s/0"]); w.subscribe(A, [("s/2", 2)])
+                                if inbound2:
+                                    w.recv(A, W.publish("in/q2", b"half", 2, 9))
+                            if ending == "garbage":
+                                w.recv(A, b"\xf0\x00")
+                            elif ending == "katimeout":
+                                n = 0
+                                while w.t[A].phase == "open" and w.due() and w.in_range(w.due()[0]) and n < 12:
+                                    w.fire(w.due()[0]); n += 1
+                            elif ending == "disconnect":
+                                w.disconnect(A)
+                        if w.t[A].phase != "lost":
+                            w.lost(A, "done" if ending in ("done", "disconnect") else "lost")
+                        drain(w, 3)
+                        w.build(A); w.set(A, "onDisconnection", 1); w.set(A, "onPublish", 1); w.set(A, "window", 3)
+                        w.connect(A, keepalive=0, cleanStart=False, version=ver); w.recv(A, W.connack(0, 1))
+                        if prof != "sub":
+                            w.publish(A, "t", "fresh", 1)
+                        if prof != "pub" and inbound2:
+                            w.recv(A, W.ack("PUBREL", 9))
+                        w.lost(A, "done"); drain(w, 3)
+                        out.done(w)
 
 # ------------------------------------------------------------------------------------------------ react (stage 3)
 def actions(w):
@@ -960,7 +1114,7 @@ def main():
     outdir, fam, tier, seed = sys.argv[1], sys.argv[2], sys.argv[3], int(sys.argv[4])
     rnd = random.Random(seed)
     out = Out(outdir)
-    {"handshake": fam_handshake, "inject": fam_inject, "args": fam_args, "react": fam_react, "refused": fam_refused, "refstate": fam_refstate, "ids": fam_ids, "retrygrid": fam_retrygrid, "inbound2": fam_inbound2, "resume": fam_resume, "deadconnect": fam_deadconnect}[fam](out, tier, rnd)
+    {"handshake": fam_handshake, "inject": fam_inject, "args": fam_args, "react": fam_react, "refused": fam_refused, "refstate": fam_refstate, "ids": fam_ids, "retrygrid": fam_retrygrid, "inbound2": fam_inbound2, "resume": fam_resume, "deadconnect": fam_deadconnect, "pktstate": fam_pktstate, "lossall": fam_lossall, "ka2": fam_ka2}[fam](out, tier, rnd)
     out.close()
 
 
